@@ -11,6 +11,7 @@ FIFO of postponed callback groups.  Oracle clauses are grouped in families:
 A driver *owns* some families; clauses of the others are not evaluated,
 and an exception that belongs to another family prunes the branch.
 """
+import abc
 import collections
 
 from mc import env  # noqa: F401  (binds desper to the tree under test)
@@ -72,6 +73,29 @@ def _probe_queries(comp, entity, world, when):
         world.entities
     except Exception as exc:
         sink.append((comp.label, when, entity, repr(exc)))
+    known = getattr(comp, 'known', None)
+    if known is None or comp.busy:
+        return
+    # "a listener exactly while attached", asked from inside a callback
+    # about the components of the *other* entities (the one under
+    # notification is in the middle of its operation)
+    mine = list(comp.rows.get(entity, {}).values())
+    try:
+        for other in known:
+            if other is comp or not events_of(other):
+                continue
+            if any(other is m for m in mine) or any(
+                    other is m for m in comp.op_new):
+                continue
+            owners = [e for e, c in world.get(type(other)) if c is other]
+            if entity in owners:
+                continue
+            if world.is_handler(other) != bool(owners):
+                comp.listener_sink.append(
+                    (comp.label, when, entity, other.label, owners,
+                     world.is_handler(other)))
+    except Exception as exc:
+        sink.append((comp.label, when, entity, repr(exc)))
 
 
 @desper.event_handler(on_add='h_added', on_remove='h_removed', ping='h_ping')
@@ -81,6 +105,11 @@ class H(Plain):
     the library must go through the event mapping, never through the event
     name."""
     sink = None     # list collecting failures of queries made in callbacks
+    known = None    # every component of the run (listener probe), or None
+    busy = ()       # non-empty while a callback runs operations of its own
+    rows = None     # the model's table as it was before the operation
+    listener_sink = None
+    op_new = ()     # components handed to the running operation
 
     def h_added(self, entity, world):
         self.log.append((self.label, 'on_add', entity, id(world)))
@@ -129,6 +158,18 @@ class HZ(H):
             self.marks.append(len(self.log))
 
 
+class HY(H):
+    """on_add disables dispatching (a loading gate): whatever else the
+    running operation still has to announce is postponed."""
+    marks = None
+
+    def h_added(self, entity, world):
+        super().h_added(entity, world)
+        if world.dispatch_enabled:
+            world.dispatch_enabled = False
+            self.marks.append(len(self.log))
+
+
 class HKR(H):
     """on_remove deletes the *other* entity (1 <-> 2) immediately and gives
     its identifier to a fresh entity: callbacks may call back into the
@@ -141,10 +182,15 @@ class HKR(H):
         if entity not in (1, 2):
             return
         other = 3 - entity
-        if world.get_components(other):
-            world.delete_entity(other, immediate=True)
-        comp = self.maker('A')
-        world.create_entity(comp, entity_id=other)
+        busy = self.busy if isinstance(self.busy, list) else []
+        busy.append(1)
+        try:
+            if world.get_components(other):
+                world.delete_entity(other, immediate=True)
+            comp = self.maker('A')
+            world.create_entity(comp, entity_id=other)
+        finally:
+            busy.pop()
         self.recreated.append((other, comp))
 
 
@@ -154,7 +200,12 @@ class HS(H):
 
     def h_added(self, entity, world):
         super().h_added(entity, world)
-        removed = world.remove_component(entity, HS)
+        busy = self.busy if isinstance(self.busy, list) else []
+        busy.append(1)
+        try:
+            removed = world.remove_component(entity, HS)
+        finally:
+            busy.pop()
         self.gone.append((entity, self, removed))
 
 
@@ -194,8 +245,21 @@ class _Types(dict):
         return dict.__contains__(self, name)
 
 
-TYPES = _Types({c.__name__: c for c in (A, X, N, H, HB, HD, HZ, HS, HKR, P,
-                                         OA)})
+TYPES = _Types({c.__name__: c for c in (A, X, N, H, HB, HD, HZ, HY, HS, HKR,
+                                         P, OA)})
+
+
+class VirtualBase(abc.ABC):
+    """A (and with it the lazily defined B) is *registered* with this ABC:
+    issubclass / isinstance say yes, the class tree says no.  Whether such
+    a type matches is not stated - that every query gives the same answer
+    is."""
+
+
+VirtualBase.register(A)
+# query types that match structurally (runtime-checkable protocol: every
+# handler component is an instance) or virtually
+STRUCTURAL = (VirtualBase, desper.EventHandler)
 
 
 class RecProc(desper.Processor):
@@ -240,7 +304,7 @@ class WorldDriver:
                  shapes=((), ('A',), ('B',), ('A', 'X'), ('B', 'X')),
                  toggles=False, max_postponed=2, processors=False,
                  bogus_delete=False, coarse=True, clear_op=True,
-                 delete_ops=True, process_op=True):
+                 delete_ops=True, process_op=True, stray_marks=False):
         self.name = name
         self.own = set(own)
         self.types = tuple(types)
@@ -252,6 +316,9 @@ class WorldDriver:
         self.max_postponed = max_postponed
         self.processors = processors
         self.bogus_delete = bogus_delete
+        # stray_marks: deferred delete of an id of the alphabet that owns
+        # nothing at the moment, and clear() while such a mark exists
+        self.stray_marks = stray_marks
         self.coarse = coarse
         self.clear_op = clear_op
         self.delete_ops = delete_ops
@@ -267,6 +334,7 @@ class WorldDriver:
                     max_postponed=self.max_postponed,
                     processors=self.processors, coarse_key=self.coarse,
                     bogus_delete=self.bogus_delete,
+                    stray_marks=self.stray_marks,
                     families=sorted(self.own))
 
     # -- construction --------------------------------------------------
@@ -290,6 +358,9 @@ class WorldDriver:
         ctx.comps = []           # every component ever created (kept alive)
         ctx.procs = {}
         ctx.callback_errors = []
+        ctx.listener_errors = []
+        ctx.busy = []
+        ctx.op_new = []          # components created by the running operation
         ctx.effects = []     # (entity, row existed) of in-callback deletes
         ctx.redisabled = []  # log positions at which a callback disabled
         ctx.selfremoved = []  # (entity, component, returned) of one-shots
@@ -341,18 +412,29 @@ class WorldDriver:
         comp = TYPES[type_name](f'{type_name}{ctx.counter}', ctx.log)
         if isinstance(comp, H):
             comp.sink = ctx.callback_errors
+            if 'L' in self.own:
+                comp.known = ctx.comps
+                comp.busy = ctx.busy
+                comp.rows = ctx.rows
+                comp.listener_sink = ctx.listener_errors
+                comp.op_new = ctx.op_new
             comp.effects = ctx.effects
             comp.marks = ctx.redisabled
             comp.gone = ctx.selfremoved
             comp.recreated = ctx.recreated
             comp.maker = lambda t, ctx=ctx: self.new(ctx, t)
         ctx.comps.append(comp)
+        ctx.op_new.append(comp)
         return comp
 
     # -- alphabet ------------------------------------------------------
     def ops(self, ctx):
         if ctx.bogus:
-            return [('process',)]
+            ops = [('process',)]
+            if (self.stray_marks and self.clear_op
+                    and (ctx.enabled or not self.toggles)):
+                ops.append(('clear',))
+            return ops
         if (self.toggles and not ctx.enabled
                 and sum(len(g) for g in ctx.postponed) >= self.max_postponed):
             return [('enable',)]
@@ -382,6 +464,9 @@ class WorldDriver:
                     ops.append(('delete_now', e))
         if self.bogus_delete and not ctx.pending and not ctx.ghost:
             ops.append(('delete', 77))
+            if self.stray_marks:
+                ops.extend(('delete', e) for e in self.ids
+                           if e not in ctx.rows)
         if self.process_op:
             ops.append(('process',))
         if self.processors:
@@ -429,6 +514,7 @@ class WorldDriver:
         log_start = len(ctx.log)
         was_enabled = ctx.enabled
         pending_before = bool(ctx.pending)
+        del ctx.op_new[:]
 
         if kind == 'create':
             _, shape, eid = op
@@ -598,6 +684,10 @@ class WorldDriver:
                 self._drop_row(ctx, e, events)
             ctx.pending.clear()
             ctx.ghost.clear()
+            if ctx.bogus:
+                # a cleared world awaits no deletion at all
+                ctx.hits['clear_with_stray_mark'] += 1
+                ctx.bogus.clear()
             ctx.autos = 0
             ctx.hits['clear'] += 1
             if self.processors:
@@ -631,6 +721,14 @@ class WorldDriver:
                             f'{op}: a query issued from {err[0]}.{err[1]}'
                             f'(entity {err[2]}) raised {err[3]}',
                             callback=err[1], op=kind)
+        if ctx.listener_errors:
+            err = ctx.listener_errors[0]
+            del ctx.listener_errors[:]
+            raise Violation('registered_exactly_while_attached',
+                            f'{op}: seen from {err[0]}.{err[1]}(entity '
+                            f'{err[2]}): {err[3]} is attached to {err[4]}, '
+                            f'is_handler = {err[5]}',
+                            from_callback=True, stale=bool(err[5]))
         for e, comp, removed in ctx.selfremoved:
             # a one-shot component detached itself from inside its on_add
             ctx.hits['one_shot_removes_itself'] += 1
@@ -886,6 +984,27 @@ class WorldDriver:
                                     f'{e in ctx.pending}',
                                     pending=e in ctx.pending)
                 obs.append((e, exists))
+            for klass in STRUCTURAL:
+                try:
+                    pairs = list(w.get(klass))
+                except Exception as exc:
+                    raise Violation('get_raised',
+                                    f'get({klass.__name__}) raised {exc!r}')
+                for e in self.universe:
+                    listed = [c for e2, c in pairs if e2 == e]
+                    has = w.has_component(e, klass)
+                    one = w.get_component(e, klass, sent)
+                    if (has != bool(listed) or (one is not sent) != has
+                            or (one is not sent
+                                and not any(one is c for c in listed))):
+                        raise Violation(
+                            'queries_agree',
+                            f'query type {klass.__name__} (matches only '
+                            f'through isinstance), entity {e}: get() lists '
+                            f'{listed}, has_component = {has}, '
+                            f'get_component = '
+                            f'{"<default>" if one is sent else one!r}',
+                            structural=True)
             ents = list(w.entities)
             want_ents = [e for e in rows if e not in ctx.pending]
             if sorted(map(repr, ents)) != sorted(map(repr, want_ents)):
